@@ -32,16 +32,17 @@ def main():
     sh("git checkout -- src && rm -f tests/demo_*.rs", wt)
     # demo passes without the change
     shutil.copy(demo, os.path.join(wt, "tests", "demo_%s.rs" % letter))
-    rc, out = sh("cargo test --offline --test demo_%s 2>&1 | tail -15" % letter, wt)
+    flags = os.environ.get("SEED_DEMO_FLAGS", "")
+    rc, out = sh("cargo test --offline %s --test demo_%s 2>&1 | tail -15" % (flags, letter), wt)
     ok_clean = "test result: ok" in out
-    ran.append("unmodified tree: cargo test --offline --test demo_%s -> %s" % (letter, "pass" if ok_clean else "FAIL"))
+    ran.append("unmodified tree: cargo test --offline %s --test demo_%s -> %s" % (flags, letter, "pass" if ok_clean else "FAIL"))
     rc, out = sh("git apply %s" % patch, wt)
     if rc != 0:
         print("patch does not apply:", out)
         return 2
-    rc, out = sh("cargo test --offline --test demo_%s 2>&1 | tail -25" % letter, wt, timeout=900)
+    rc, out = sh("cargo test --offline %s --test demo_%s 2>&1 | tail -25" % (flags, letter), wt, timeout=900)
     demo_fails = "test result: ok" not in out
-    ran.append("patched tree: cargo test --offline --test demo_%s -> %s" % (letter, "fails (as required)" if demo_fails else "PASSES"))
+    ran.append("patched tree: cargo test --offline %s --test demo_%s -> %s" % (flags, letter, "fails (as required)" if demo_fails else "PASSES"))
     os.remove(os.path.join(wt, "tests", "demo_%s.rs" % letter))
     rc, out = sh("cargo test --offline 2>&1 | grep -E '^test result|FAILED|panicked|error' | head -30", wt)
     suite_ok = "FAILED" not in out and "error" not in out and out.count("test result: ok") >= 6
